@@ -269,3 +269,21 @@ PROPS["C15"] = {
          "thorough": {"checks": 4000, "shards": 16, "timeout": 1700}},
     ],
 }
+
+PROPS["C14"] = {
+    "title": "Admission totality: untrusted transactions never crash a node",
+    "level": "exploration",
+    "technique": "grammar-based PBT (rapid) over transaction bodies and JSON governance payloads against the real pool admission path, then execution of every admitted transaction through the real executor (producer and validator mode); oracle = no panic, outcome in {accept, specific rejection} / {success, ERROR receipt, skipped}; native go fuzzing of the validation entry points in the thorough tier",
+    "level_text": ("Generated hostile transactions: every type (incl. unknown), recipients (system/name/enterprise/vault accounts, addresses, names, nil, arbitrary bytes), amount / gas price of arbitrary length, and payloads from a grammar of governance calls "
+                   "(every call name x 0-4 arguments drawn from valid and valid-but-unexpected values: wrong JSON types, null, nested, huge numbers, multihash ids of other lengths, non-ASCII names, long strings) plus raw JSON shapes and garbage, correctly signed so that they reach the stateful checks, "
+                   "against a state with stakers, a registered name and a contract, on public/private dpos/sbp/raft networks under fork versions 0..5. Admission is the real pool path (verifyTx + put); every admitted transaction is executed in a block in both execution modes."),
+    "level_note": "Fee-delegation transactions are verified but not offered to the pool (the pool asks the chain-service actor, which is not wired in the harness); they are executed directly. The Lua VM is the stub, so panics inside LuaJIT are out of reach.",
+    "rule": ("a case = network configuration + 1-6 hostile transactions; non-trivial = at least one transaction passed full pool admission (i.e. reached the deep code); distinct = distinct (configuration, transaction descriptions)."),
+    "assumptions": ["stub VM stands in for LuaJIT"],
+    "units": [
+        {"pkg": "verifx/c14", "run": "^TestC14Admission$",
+         "quick": {"checks": 250, "shards": 12, "timeout": 400},
+         "thorough": {"checks": 6000, "shards": 16, "timeout": 1700}},
+        {"pkg": "verifx/c14", "run": "^TestC14KnownOddCandidate$", "all": {"shards": 1, "timeout": 120}},
+    ],
+}
